@@ -23,6 +23,7 @@ type vxResult struct {
 	AssumeBad []string `json:"assume_bad"`
 	Panic     string   `json:"panic"`
 	Unknown   bool     `json:"unknown_harness"`
+	Notes     []string `json:"notes"`
 }
 
 func TestVXReplay(t *testing.T) {
@@ -52,7 +53,7 @@ func TestVXReplay(t *testing.T) {
 				}()
 				h()
 			}()
-			res.Failed, res.Reached, res.AssumeBad = vx.failed, vx.reached, vx.assumeBad
+			res.Failed, res.Reached, res.AssumeBad, res.Notes = vx.failed, vx.reached, vx.assumeBad, vx.notes
 		}
 		out, _ := json.Marshal(res)
 		fmt.Printf("VXRESULT %s\n", out)
